@@ -46,6 +46,7 @@ PROBES = [
     "fits_budget_exactly", "mixed_fresh_and_used_labels", "nodes_called_with_same_list_object",
     "layers_ge_4", "all_labels_at_one_position", "list_edited_in_place_and_handed_over_again",
     "subset_of_used_labels", "clones_of_laid_out_labels", "readonly_inspection",
+    "standalone_distributor_reused", "labels_remeasured_between_computes",
 ]
 
 RULE = {
@@ -318,9 +319,11 @@ def gen_plan(rng, tier):
                         rng.randrange(1 << 30)])
         elif r < 0.90 and rng.random() < 0.5:
             ops.append(["inspect", e, rng.randrange(1 << 30)])
+        elif r < 0.90:
+            ops.append(["rewidth", rng.randrange(nsets), rng.randrange(1 << 30)])
         elif r < 0.94:
             s = rng.randrange(nsets)
-            ops.append(["distribute", s, gen_dist_opts(rng, sets[s]), rng.choice(["fresh", "fresh", "existing"])])
+            ops.append(["distribute", s, gen_dist_opts(rng, sets[s]), rng.choice(["fresh", "fresh", "existing", "reuse", "reuse"])])
         else:
             s = rng.randrange(nsets)
             o = gen_opts(rng, sets[s])
@@ -390,7 +393,7 @@ def well_formed(plan):
     for op in plan["ops"]:
         if op[0] in ("set_labels",) and op[2] >= nsets:
             continue
-        if op[0] in ("stale", "distribute") and op[1] >= nsets:
+        if op[0] in ("stale", "distribute", "rewidth") and op[1] >= nsets:
             continue
         ops.append(op)
     if not ops:
@@ -600,11 +603,16 @@ def _run(plan):
     # sequential sharing by the caller); an engine is only ever judged right
     # after its *own* compute() has completed.
 
+    shared_dist = []   # the one stand-alone Distributor the caller keeps
+    shared_eff = {}
+
     def bump(k, n=1):
         stats[k] = stats.get(k, 0) + n
 
+    cur_sets = [[list(t) for t in st] for st in plan["sets"]]  # widths may be re-measured during the run
+
     def fresh_nodes(s):
-        return [Node(p, w, data={"i": i}) for i, (p, w) in enumerate(plan["sets"][s])]
+        return [Node(p, w, data={"i": i}) for i, (p, w) in enumerate(cur_sets[s])]
 
     def judge(step, e, history):
         eng = engines[e]
@@ -615,7 +623,7 @@ def _run(plan):
         if len(got) != len(labels) or {id(x) for x in got} != {id(x) for x in labels}:
             c04.append({"property": "C04", "class": "engine_lost_labels", "step": step,
                         "detail": {"reported": len(got), "given": len(labels)}})
-        checkpoints.append({"step": step, "opts": dict(eng["opts"]), "set": s, "labels": eng["spec"],
+        checkpoints.append({"step": step, "opts": dict(eng["opts"]), "set": s, "labels": [list(t) for t in eng["spec"]],
                             "observed": _observed_map(labels), "history": history,
                             "fault_config": eng.get("after_fault", False)})
         layers = f.getLayers()
@@ -658,13 +666,14 @@ def _run(plan):
             labels = eng["labels"]
             bad = check_c04(eng["force"].getLayers(), labels, effective_dist_opts(cl["opts"]), True, {})
             if bad is not None:
-                bad[1]["op"] = plan["ops"][step]
+                last = min(step, len(plan["ops"]) - 1)
+                bad[1]["op"] = plan["ops"][last]
                 bad[1]["laid_out_at_step"] = cl["step"]
-                c04.append({"property": "C04", "class": "corrupted_later:" + bad[0], "step": step, "detail": bad[1]})
+                c04.append({"property": "C04", "class": "corrupted_later:" + bad[0], "step": last, "detail": bad[1]})
                 eng["clean"] = None
             elif _observed_map(labels) != cl["observed"]:
                 checkpoints.append({"step": step, "quiescence": True, "engine": e2, "laid_out_at_step": cl["step"],
-                                    "op": plan["ops"][step]})
+                                    "op": plan["ops"][min(step, len(plan["ops"]) - 1)]})
                 eng["clean"] = None
 
     for step, op in enumerate(plan["ops"]):
@@ -726,7 +735,7 @@ def _run(plan):
                     objs[s] = [old if r.random() < 0.5 else new for old, new in zip(objs[s], fresh)]
                     bump("probe:mixed_fresh_and_used_labels")
                 lst = list(objs[s])
-                spec = [list(t) for t in plan["sets"][s]]
+                spec = [list(t) for t in cur_sets[s]]
                 if mode_eff == "clones":
                     # copies made with the public Node.clone(): new objects that carry
                     # the originals' current position and layer number
@@ -896,7 +905,7 @@ def _run(plan):
                 elif outcome.startswith("raise:"):
                     # the reference decides whether raising is what fresh code does too
                     checkpoints.append({"step": step, "opts": dict(eng["opts"]), "set": s,
-                                        "labels": eng["spec"], "observed": {"raise": outcome[6:]},
+                                        "labels": [list(t) for t in eng["spec"]], "observed": {"raise": outcome[6:]},
                                         "history": history, "fault_config": eng.get("after_fault", False)})
         elif kind == "inspect":
             # read-only use of the public API between layouts: metrics, paths, clones,
@@ -916,6 +925,10 @@ def _run(plan):
                     for fn in ("displacement", "pathLength", "overlapSpace"):
                         if lay:
                             getattr(M, fn)(lay)
+                            try:
+                                f.metric(fn)
+                            except Exception:
+                                pass
                     if lay:
                         M.overflowSpace(lay, f.options.get("minPos"), f.options.get("maxPos"))
                         M.overlapCount(lay, 2)
@@ -930,6 +943,40 @@ def _run(plan):
                         repr(n)
                 except Exception as ex:
                     outcome = "raise:" + type(ex).__name__
+        elif kind == "rewidth":
+            # labels are re-measured: every label at some positions gets a new width
+            # (one width per position is kept), on the existing objects
+            s, seed = op[1], op[2]
+            if s not in objs or len(objs[s]) != len(cur_sets[s]):
+                outcome = "skipped"
+            else:
+                r = random.Random(seed)
+                positions = sorted({t[0] for t in cur_sets[s]})
+                chosen = set(r.sample(positions, max(1, len(positions) // 2)))
+                neww = {p: r.choice([4, 9.5, 16, 33, 70]) for p in chosen}
+                # every live object of this set - also older generations still held by an
+                # engine - is re-measured, so that labels sharing a position keep sharing a width
+                live = {id(n): n for n in objs[s]}
+                for other in engines.values():
+                    if other.get("set") == s and other.get("labels"):
+                        for n in other["labels"]:
+                            live[id(n)] = n
+                touch(set(live))
+                changed_ids = set()
+                for n in live.values():
+                    if n.idealPos in neww:
+                        n.width = neww[n.idealPos]
+                        changed_ids.add(id(n))
+                for t in cur_sets[s]:
+                    if t[0] in neww:
+                        t[1] = neww[t[0]]
+                for other in engines.values():
+                    if other.get("labels") and any(id(n) in changed_ids for n in other["labels"]):
+                        # the label multiset this engine holds, after re-measuring
+                        other["spec"] = [[n.idealPos, n.width] for n in other["labels"]]
+                        other["last_spec"] = other["spec"]
+                        other["pending_stale"] = True
+                bump("probe:labels_remeasured_between_computes")
         elif kind == "stale":
             s, what, seed = op[1], op[2], op[3]
             bump("fault:stale:configured")
@@ -997,7 +1044,21 @@ def _run(plan):
             else:
                 nodes = fresh_nodes(s)
                 try:
-                    layers = Distributor(dict(dopts)).distribute(list(nodes))
+                    if mode == "reuse" and shared_dist:
+                        # one stand-alone Distributor kept by the caller, re-configured
+                        # through its public options dict and used again
+                        dist = shared_dist[0]
+                        dist.options.update(dict(dopts))
+                        shared_eff.update(dopts)
+                        eff = dict(shared_eff)
+                        bump("probe:standalone_distributor_reused")
+                    else:
+                        dist = Distributor(dict(dopts))
+                        if not shared_dist:
+                            shared_dist.append(dist)
+                            shared_eff.clear()
+                            shared_eff.update(eff)
+                    layers = dist.distribute(list(nodes))
                     bump("probe:distribute_standalone")
                     bad = check_c04(layers, nodes, eff, False, stats)
                     if bad is not None:
